@@ -136,7 +136,15 @@ func (e *c12Env) run(c c12Case) (obs, bad string) {
 	case 3:
 		cfg = shortShape().lib()
 	}
+	if (c.Sub/7)%3 == 1 {
+		cfg.IncludeChallenge = false // a challenge format left on a configuration that does not select the challenge
+	}
+	if (c.Sub/7)%3 == 2 {
+		cfg.IncludePassword, cfg.IncludeTimestamp = false, false // password hash / time step left behind likewise
+	}
 	cfgCopy := cfg
+	rawCfg := otp.RawSuite{SuiteConfig: cfg}
+	rawCopy := rawCfg
 	caller := otp.Param{Digits: otp.Digits([]int{6, 8, 0, 10, 11}[c.Sub%5]), Algorithm: otp.Algorithm(c.Sub % 3), Period: uint([]int{0, 30, 1}[c.Sub%3]), Skew: uint([]int{0, 1, 10, 11, 2}[(c.Sub/4)%5])}
 	callerCopy := caller
 	var pp *otp.Param
@@ -160,7 +168,14 @@ func (e *c12Env) run(c c12Case) (obs, bad string) {
 		return try(func() {
 			switch op {
 			case "GenerateOCRA":
-				s, err := otp.GenerateOCRA(sec, cfg, in)
+				var su otp.Suite = cfg
+				switch (c.Sub / 5) % 3 {
+				case 1:
+					su = &cfg // a Suite passed behind a pointer: the caller's struct is reachable
+				case 2:
+					su = &rawCfg
+				}
+				s, err := otp.GenerateOCRA(sec, su, in)
 				results = append(results, s+errStr(err))
 				retain(&kept, op, []string{s})
 			case "ValidateOCRA":
@@ -168,7 +183,14 @@ func (e *c12Env) run(c c12Case) (obs, bad string) {
 				if cfg.Digits >= 1 && cfg.Digits <= 10 && c.Sub%2 == 0 {
 					code = strings.Repeat("1", cfg.Digits) // a wrong code of the RIGHT length goes all the way through the comparison
 				}
-				ok, err := otp.ValidateOCRA(sec, code, cfg, in)
+				var su otp.Suite = cfg
+				switch (c.Sub / 5) % 3 {
+				case 1:
+					su = &cfg
+				case 2:
+					su = &rawCfg
+				}
+				ok, err := otp.ValidateOCRA(sec, code, su, in)
 				results = append(results, fmt.Sprint(ok, err != nil))
 			case "OCRAInput.Validate":
 				results = append(results, errStr(in.Validate(cfg)))
@@ -350,8 +372,8 @@ func (e *c12Env) run(c c12Case) (obs, bad string) {
 		if !reflect.DeepEqual(in, inCopy) {
 			return when + ": OCRA input (slice headers/contents) differs from the caller's copy"
 		}
-		if cfg != cfgCopy {
-			return when + ": suite configuration modified"
+		if cfg != cfgCopy || rawCfg != rawCopy {
+			return when + fmt.Sprintf(": suite configuration modified: %+v -> %+v / %+v", cfgCopy, cfg, rawCfg.SuiteConfig)
 		}
 		if caller != callerCopy {
 			return when + fmt.Sprintf(": caller's Param modified: %+v -> %+v", callerCopy, caller)
